@@ -600,6 +600,25 @@ func fineReuseWhileTopicDeleting(seed uint64) []lib.Case {
 	return []lib.Case{cr.finish("reuse-vs-topic-delete#"+strconv.FormatUint(seed, 10), seed, nil, nil)}
 }
 
+// ---- sequential, no park: an Empty while one message of the consumer is deferred (REQ with a
+// delay: already taken off its count) and another is in flight: afterwards the consumer's
+// count is 0, so a RDY 1 consumer is sent exactly one of the next two messages ----
+func fineEmptyAfterDelayedReq(seed uint64) []lib.Case {
+	cr := newFineCase(seed, 10)
+	cr.opCreateTopic(1)
+	cr.opCreateChan(1, 1)
+	k1 := cr.opConnect(false, false)
+	cr.opSub(k1, 1, 1)
+	cr.opRdy(k1, 1)
+	cr.opPub(1, 2, false, false)
+	if tg, id, ok := cr.someHeld(k1); ok {
+		cr.answer(k1, "REQ", tg, id, deferMs) // deferred; the second message is delivered now
+	}
+	cr.opEmptyChan(1, 1)
+	cr.opPub(1, 2, false, false) // RDY 1: one of them, not both
+	return []lib.Case{cr.finish("empty-after-delayed-req#"+strconv.FormatUint(seed, 10), seed, nil, nil)}
+}
+
 // ---- graceful Exit while a TOUCH is between its in-flight pop and its push back: the
 // message is in no set when the channel's backlog is written ----
 func fineExitWhileTouching(seed uint64) []lib.Case {
@@ -1142,6 +1161,7 @@ var fineScenarios = map[string]func(uint64) []lib.Case{
 	"pause-many-consumers":           finePauseManyConsumers,
 	"bad-file-survives-delete":       fineBadFileSurvivesDelete,
 	"reuse-vs-topic-delete":          fineReuseWhileTopicDeleting,
+	"empty-after-delayed-req":        fineEmptyAfterDelayedReq,
 	"touch-vs-empty":                 fineEmptyWhileTouching,
 	"dscan-vs-empty":                 fineEmptyVsDeferredScan,
 	"two-deletes-on-ephemeral-topic": fineTwoDeletesOnEphemeralTopic,
@@ -1167,7 +1187,7 @@ var fineScenarios = map[string]func(uint64) []lib.Case{
 var fineByProfile = map[string][]string{
 	"c01": {"pump-vs-sub", "deliver-vs-disconnect", "touch-cap", "exit-vs-pub", "fin-vs-timeout-scan"},
 	"c08": {"deliver-vs-empty", "sub-vs-topic-delete", "fin-vs-empty", "empty-vs-wakeup", "scan-vs-empty", "req-vs-empty", "pub-vs-topic-delete", "two-deletes-on-ephemeral-topic", "touch-vs-empty", "dscan-vs-empty", "sub-vs-channel-delete", "bad-file-survives-delete", "reuse-vs-topic-delete"},
-	"c03": {"fin-vs-empty", "deliver-vs-empty", "pause-vs-pump", "pause-many-consumers"},
+	"c03": {"fin-vs-empty", "deliver-vs-empty", "pause-vs-pump", "pause-many-consumers", "empty-after-delayed-req"},
 	"c13": {"fin-vs-empty", "deliver-vs-empty", "touch-cap", "sub-vs-channel-delete"},
 	"c02": {"deliver-vs-disconnect", "touch-then-scan", "touch-cap", "touch-vs-timeout-scan", "sub-vs-channel-delete"},
 	"c04": {"touch-then-scan", "touch-cap", "touch-vs-timeout-scan", "fin-vs-timeout-scan"},
